@@ -21,6 +21,7 @@ EXTRA_PROPS = {
     'C04.driver_list_queued_owners': ['C10'],   # a client must not be able to grow the bus (defect fixed in /repo: ListQueuedOwners leak)
     'C06.cfg_e3': ['C09'], 'C06.cfg_e9': ['C09'],   # the parser keeps the default "allow rules admit only requested replies" (seed3 C09-1)
     'C19.service_created_n3': ['C10'], 'C19.try_send_failure_n3': ['C10'],   # nothing is sent to a requester that hung up: its connection data is gone (seed3 C10-2: abort)
+    'C04.acquire_table': ['C03'],          # a unique name can never be requested, whether or not it currently exists (seed3 C03-5)
     'C05.matches': ['C09'],                # no pending-reply slot for a call refused for lack of fd passing (defect fixed in /repo)
     'C15.load_message_fds': ['C14', 'C01'],    # validator OOM is not corruption (defect 45e1f98)
     'C06.reload': ['C14', 'C19'],            # reload must keep the activation object with its pending activations (seed3 C19-1)
